@@ -392,6 +392,12 @@ pub fn build_history(intents: &[Intent], p: &GenParams, head: &Intent) -> Built 
         if order.windows(2).any(|w| w[0] > w[1]) { tags.push("shuffled".into()); }
     } else { out = rows.into_iter().map(|x| x.0).collect(); }
     for r in out.iter_mut() { if r.memo.is_empty() && r.act == Act::Buy && r.shares == "7" { r.memo = "note, with comma".into(); } }
+    // free-text memos, including ones a CSV dialect could mistake for something else (comment marker, quote, formula)
+    for (i, r) in out.iter_mut().enumerate() {
+        if !r.memo.is_empty() { continue; }
+        let h = (r.shares.len() * 7 + r.price.len() * 13 + r.sd.ordinal() as usize + i * 5) % 23;
+        r.memo = match h { 0 => "#2 lot", 1 => "lot 2", 2 => "say \"hi\"", 3 => "=SUM(A1)", 4 => "; semi", 5 => "# note", _ => "" }.to_string();
+    }
     Built { rows: out, opening, tags }
 }
 
